@@ -148,6 +148,11 @@ def run(case):
             fails.append(f"extra coords after slicing are {keys}; the original order with the dropped ones removed is {want_names}")
             raise StopIteration
         nd2 = len(surv)
+        # the celestial frames (with their attributes: an equinox, an obstime) the remaining coordinates declare are
+        # frames the source declared
+        src_frames, got_frames = E.sky_frames_of(cube), E.sky_frames_of(s)
+        if any(f not in src_frames for f in got_frames):
+            fails.append(f"the sliced cube's extra coordinates declare the frame(s) {got_frames}, the source has {src_frames}")
         # mapping: one entry per (coordinate table, surviving axis)
         want_map = []
         seen = set()
